@@ -229,6 +229,11 @@ type SConfig struct {
 	Deadline time.Time
 	MaxExecs int64 // per shard; 0 = none
 	ContinueAfterFinding bool
+	// BothPolicies explores the deviation-bounded neighbourhood of two base schedules instead of
+	// one: the default scheduler that prefers the lowest-numbered enabled thread and the one that
+	// prefers the highest-numbered (newest) thread. The second exploration is reported as unit
+	// "<name>#rev".
+	BothPolicies bool
 }
 
 type Ctx struct {
@@ -266,6 +271,15 @@ type node struct {
 // ExploreS explores every schedule of sc within the preemption bound. Work is
 // sharded on the level-2 sub-trees of the exploration tree.
 func ExploreS(ctx *Ctx, sc *Scenario, cfg SConfig) {
+	if cfg.BothPolicies {
+		cfg.BothPolicies = false
+		ExploreS(ctx, sc, cfg)
+		rev := *sc
+		rev.Name = sc.Name + "#rev"
+		rev.Opt.Policy = 1
+		ExploreS(ctx, &rev, cfg)
+		return
+	}
 	res := ctx.Res
 	us := res.unit(sc.Name, "S")
 	if cfg.Bound < 0 {
@@ -496,6 +510,12 @@ func SortedKeys[V any](m map[string]V) []string {
 // tracing on and returns its findings (with the schedule attached).
 func ReplayScenario(scs []*Scenario, rp Replay) []*Finding {
 	for _, sc := range scs {
+		if sc.Name+"#rev" == rp.Unit {
+			rev := *sc
+			rev.Name = rp.Unit
+			rev.Opt.Policy = 1
+			sc = &rev
+		}
 		if sc.Name != rp.Unit {
 			continue
 		}
